@@ -30,6 +30,27 @@ Theorem C07_render_total : forall s, render_capture gen_render_skips_typed_nil g
 Proof. exact render_total_gen. Qed.
 Print Assumptions C07_render_total.
 
+(* ... also when the text of the capture cannot be sliced out of the file (a file that exists in memory only, a saved version
+   that is shorter than the analysed one) and has to be printed: whatever kind of node the capture is *)
+Theorem C07_filters_total_any_file : forall name ac readable s c tf, In (name, ac) gen_access ->
+  closure_run_on ac gen_nodetext_guarded gen_text_print_handled gen_text_print_recursive readable s c tf = Ok tt.
+Proof. exact closure_total_on. Qed.
+Print Assumptions C07_filters_total_any_file.
+
+Theorem C07_render_total_any_file : forall readable s c,
+  render_capture_on gen_render_skips_typed_nil gen_nodetext_guarded gen_text_print_handled gen_text_print_recursive readable s c = Ok tt.
+Proof. exact render_total_on_gen. Qed.
+Print Assumptions C07_render_total_any_file.
+
+(* the fallback's own cases are necessary: handing a `$*xs` capture or a result list to go/printer crashes the run as soon as
+   the file's bytes are not readable, and only then (what the unfixed tree did) *)
+Theorem C07_unhandled_list_refuted : forall ac tg recur tf n f, access_safe tg ac = true -> ac_text ac = true ->
+  closure_run_on ac tg ["*ast.Comment"] recur false (ShList (S n)) (NcSlice f) tf = Panic PExplicit /\
+  closure_run_on ac tg ["*ast.Comment"] recur false ShNode NcFieldList tf = Panic PExplicit /\
+  closure_run_on ac tg ["*ast.Comment"] recur true (ShList (S n)) (NcSlice f) tf = Ok tt.
+Proof. exact unhandled_list_crashes. Qed.
+Print Assumptions C07_unhandled_list_refuted.
+
 (* truncation (C15's theorem, re-proved here against the same regenerated body): any TruncateLen, any text *)
 Theorem C07_truncate_total : forall s L, go_input s L -> exists r, truncateText s L = Ok r.
 Proof. exact truncate_never_panics. Qed.
@@ -69,3 +90,14 @@ Example c07_report_at_empty_list :
   report_node true ShNode (Some (ShList 0)) = ShNode /\ report_node true ShNode (Some (ShList 2)) = ShList 2 /\
   node_pos (report_node false ShNode (Some (ShList 0))) = Panic PIndex.
 Proof. repeat split. Qed.
+
+Example c07_text_of_a_list_capture_in_memory :
+  match assoc "makeTextConstFilter" gen_access with
+  | Some ac => ac_text ac = true /\
+      closure_run_on ac gen_nodetext_guarded gen_text_print_handled gen_text_print_recursive false (ShList 3) (NcSlice false)
+        {| tf_untyped := false; tf_obj_nil := false |} = Ok tt /\
+      closure_run_on ac gen_nodetext_guarded ["*ast.Comment"] false false (ShList 3) (NcSlice false)
+        {| tf_untyped := false; tf_obj_nil := false |} = Panic PExplicit
+  | None => False
+  end.
+Proof. vm_compute. repeat split. Qed.
